@@ -1,7 +1,7 @@
-(* C08: cleanup deletes only literals and rules that cannot matter (meta level + boolean constants)
+(* C08: cleanup deletes only literals and rules that cannot matter: meta-theorem (G2), semantic soundness of the modelled same-predicate branch of _superseeded, structure of the removal loop, boolean constants
    Only statements, `exact`, and Print Assumptions live here. *)
 From Coq Require Import List String ZArith Bool Permutation.
-From NGO Require Import Syntax.Ast Sem.Sym Sem.Sat Meta.Cleanup Link.NormalizeSem.
+From NGO Require Import Syntax.Ast Sem.Sym Sem.Sat Meta.Cleanup Model.Cleanup Link.NormalizeSem Link.CleanupSpec.
 Import ListNotations.
 
 Theorem C08_supported : forall (atom F : Type) (fsat : interp atom -> interp atom -> F -> Prop), (forall (H T : interp atom) (f : F), subi atom H T -> fsat H T f -> fsat T T f) -> forall (P : prog atom F) (T : interp atom) (a : atom), stable atom F fsat P T -> T a -> exists r : rule atom F, P r /\ head_atom atom (hd atom F r) a /\ bsat atom F fsat T T (bd atom F r).
@@ -23,3 +23,39 @@ Print Assumptions C08_true_literal.
 Theorem C08_false_literal : forall (sym_lt : sym -> sym -> Prop) (G : list string) (H T : Sym.interp) (s : subst), ~ lit_sat sym_lt G H T s (Lit NoSign (ABool false)) /\ ~ lit_sat sym_lt G H T s (Lit NegNeg (ABool false)).
 Proof. exact (@false_literal_proof). Qed.
 Print Assumptions C08_false_literal.
+
+Theorem C08_same_pred_implied : forall (sym_lt : sym -> sym -> Prop) (ss : list Mapping) (lhs rhs : lit) (G : list string) (H T : Sym.interp) (s : subst), Sym.subi H T -> pred_symbol lhs <> None -> same_pred lhs rhs = true -> no_anon rhs = true -> _superseeded ss lhs rhs = Ok true -> lit_sat sym_lt G H T s lhs -> lit_sat sym_lt G H T s rhs.
+Proof. exact (@same_pred_implied_proof). Qed.
+Print Assumptions C08_same_pred_implied.
+
+Theorem C08_same_pred_implied_weak : forall (sym_lt : sym -> sym -> Prop) (ss : list Mapping) (lhs rhs : lit) (G : list string) (H T : Sym.interp) (s : subst), Sym.subi H T -> pred_symbol lhs <> None -> same_pred lhs rhs = true -> anon_guarded lhs rhs = true -> _superseeded ss lhs rhs = Ok true -> lit_sat sym_lt G H T s lhs -> lit_sat sym_lt G H T s rhs.
+Proof. exact (@same_pred_implied_weak_proof). Qed.
+Print Assumptions C08_same_pred_implied_weak.
+
+Theorem C08_superseeded_lhs_positive : forall (ss : list Mapping) (lhs rhs : lit), _superseeded ss lhs rhs = Ok true -> lit_sign lhs = NoSign.
+Proof. exact (@superseeded_lhs_positive_proof). Qed.
+Print Assumptions C08_superseeded_lhs_positive.
+
+Theorem C08_superseeded_same_pred_never_negative : forall (ss : list Mapping) (lhs rhs : lit), same_pred lhs rhs = true -> lit_sign rhs = Neg -> _superseeded ss lhs rhs = Ok false.
+Proof. exact (@superseeded_same_pred_never_negative_proof). Qed.
+Print Assumptions C08_superseeded_same_pred_never_negative.
+
+Theorem C08_remove_implied_body : forall (sym_lt : sym -> sym -> Prop) (ss : list Mapping) (lhs rhs : lit) (G : list string) (H T : Sym.interp) (s : subst) (rest : list lit), Sym.subi H T -> pred_symbol lhs <> None -> same_pred lhs rhs = true -> no_anon rhs = true -> _superseeded ss lhs rhs = Ok true -> lits_sat sym_lt G H T s (lhs :: rhs :: rest) <-> lits_sat sym_lt G H T s (lhs :: rest).
+Proof. exact (@remove_implied_body_proof). Qed.
+Print Assumptions C08_remove_implied_body.
+
+Theorem C08_remove_only_removes : forall (A : Type) (as_lit : A -> option lit) (eqb : A -> A -> bool) (ss : list Mapping) (l l' : list A) (updated : bool), _remove_superseed_from_list as_lit eqb ss l = Ok (l', updated) -> subseq l' l /\ (forall x : A, In x l' -> In x l) /\ Datatypes.length l' <= Datatypes.length l /\ (updated = false -> l' = l).
+Proof. exact (@remove_superseed_only_removes_proof). Qed.
+Print Assumptions C08_remove_only_removes.
+
+Theorem C08_remove_reaches_fixpoint : forall (A : Type) (as_lit : A -> option lit) (eqb : A -> A -> bool) (ss : list Mapping) (l l' : list A) (updated : bool), _remove_superseed_from_list as_lit eqb ss l = Ok (l', updated) -> find_pair as_lit ss l' 0 l' = Ok None.
+Proof. exact (@remove_superseed_fixpoint_proof). Qed.
+Print Assumptions C08_remove_reaches_fixpoint.
+
+Theorem C08_lit_sat_persist : forall (sym_lt : sym -> sym -> Prop) (G : list string) (H T : Sym.interp) (s : subst) (l : lit), Sym.subi H T -> lit_sat sym_lt G H T s l -> lit_sat sym_lt G T T s l.
+Proof. exact (@lit_sat_persist_all_proof). Qed.
+Print Assumptions C08_lit_sat_persist.
+
+Theorem C08_anon_side_condition_needed : forall sym_lt : sym -> sym -> Prop, let lhs := Lit NoSign (ASym (TFun "p" (TVar "X" :: nil) false)) in let rhs := Lit NoSign (ASym (TFun "p" (TVar "_" :: nil) false)) in let T0 := fun a : gatom => a = ("p", SNum 1 :: nil) in let s0 := fun x : string => if x =? "_" then SNum 2 else SNum 1 in same_pred lhs rhs = true /\ _superseeded nil lhs rhs = Ok true /\ no_anon rhs = false /\ lit_sat sym_lt nil T0 T0 s0 lhs /\ ~ lit_sat sym_lt nil T0 T0 s0 rhs.
+Proof. exact (@same_pred_anon_needed). Qed.
+Print Assumptions C08_anon_side_condition_needed.
